@@ -358,12 +358,12 @@ Proof.
 Qed.
 
 (* ------------------------------------------------------------------ P_emit *)
-Lemma inv_p_emit c s s' t r ok : Inv s -> p_emit c s t r ok = Some s' -> Inv s'.
+Lemma inv_p_emit c s s' t r pad ok : Inv s -> p_emit c s t r pad ok = Some s' -> Inv s'.
 Proof.
   intros I H. unfold p_emit in H. destruct (p_live s t) eqn:L; [|discriminate].
   apply p_live_spec in L. destruct L as (Hn & Hd & Es).
   destruct (curr s t) as [i|] eqn:Hc.
-  - destruct (size s (t, i) + length r <=? maxsize c); injection H as <-.
+  - destruct (size s (t, i) + (length r - pad) <=? maxsize c); injection H as <-.
     + apply inv_append; assumption.
     + change (set_curr (set_chan s (chan s ++ [MEnd (t, i)])) (updt (curr (set_chan s (chan s ++ [MEnd (t, i)]))) t None))
         with (send_end s t i).
